@@ -135,7 +135,7 @@ func rulesC02(c *Ctx) {
 				if twn {
 					tgt = f
 				}
-				okr, p2 := g.MustPass(tgt, g.Exits, isP)
+				okr, p2 := g.MustPassIncl(tgt, g.Exits, isP)
 				c.Check(okr || isP(tgt), "acceptRequest:refused-is-answered", ar, cond, "when the enqueue closure refuses, every path answers the request %s", g.PathString(p2))
 			}
 		}
@@ -675,7 +675,7 @@ func rulesC02(c *Ctx) {
 				}
 			}
 			c.Need(okTarget >= 0, "SSE ServeHTTP: type assertion to *Request")
-			okp, p := hg.MustPass(okTarget, []int{hg.VertexOf(s)}, func(v int) bool { return v == scv[0] })
+			okp, p := hg.MustPassIncl(okTarget, []int{hg.VertexOf(s)}, func(v int) bool { return v == scv[0] })
 			c.Check(okp || okTarget == scv[0], "sse.ServeHTTP:send#"+itoa(i)+"-validated", sh, s, "a decoded request reaches the session only through checkRequest %s", hg.PathString(p))
 		}
 		c.checkRejectBranch(sh, scv[0], "sse.ServeHTTP")
@@ -722,7 +722,7 @@ func (c *Ctx) checkRejectBranch(f *Func, cv int, label string) {
 			n := g.Node(v)
 			return n != nil && (f.ContainsCall(n, httpErr) || f.ContainsCall(n, wj))
 		}
-		okw, p := g.MustPass(tgt, g.Exits, isW)
+		okw, p := g.MustPassIncl(tgt, g.Exits, isW)
 		c.Check(!sendReach && (okw || isW(tgt)), label+":reject-branch-answers-4xx-and-returns", f, cond, "on a checkRequest error every path writes an HTTP error and returns without publishing the message %s", g.PathString(p))
 	}
 	c.Check(found, label+":checkRequest-error-tested", f, g.Node(cv), "the checkRequest error is tested")
